@@ -413,6 +413,9 @@ def write_data(file, tdms_object):
 def to_file(file, array):
     """Wrapper around ndarray.tofile to support any file-like object"""
 
+    if array.dtype.byteorder == '>':
+        # TDMS segments are written with little endian byte order
+        array = array.astype(array.dtype.newbyteorder('<'))
     try:
         array.tofile(file)
     except (TypeError, IOError, UnsupportedOperation):
